@@ -53,7 +53,7 @@ func loadProgram(repo string, patterns []string, overlay map[string][]byte, spec
 	}
 	p.mutableGlobals = map[*ssa.Global]bool{}
 	for fn := range ssautil.AllFunctions(prog) {
-		if fn.Name() == "init" && fn.Parent() == nil && fn.Signature.Recv() == nil {
+		if (fn.Name() == "init" || strings.HasPrefix(fn.Name(), "init#")) && fn.Parent() == nil && fn.Signature.Recv() == nil {
 			continue
 		}
 		for _, b := range fn.Blocks {
@@ -82,6 +82,9 @@ func loadProgram(repo string, patterns []string, overlay map[string][]byte, spec
 					}
 					if _, dbg := in.(*ssa.DebugRef); dbg {
 						continue
+					}
+					if os.Getenv("GOCV_DEBUG_GLOBALS") != "" {
+						fmt.Fprintf(os.Stderr, "global %s marked mutable by %T in %s: %s\n", g.Name(), in, fn.String(), in.String())
 					}
 					p.mutableGlobals[g] = true
 				}
